@@ -39,7 +39,19 @@ MIN_DECIDING = {"sweep_runs": 40, "schedules_run": 500, "distinct_schedule_trace
 NOTICE = "Please update to the latest ascmhl version using `pip3 install -U ascmhl`.\n"
 _srv = {}
 
-TAGS = ["v0.0.1", "v99.0.0", "v99.0.0-alpha.2", "v99.dev1", "garbage", "", None, 123, "99", "v1.2.3.4.5", "v99.0.0rc1", "continuous-integration-build-nightly", "a" * 64, "release_" * 8, "v" + "9" * 400, "1.0." + "0." * 60 + "1"]
+def _relatives_of_installed():
+    """version strings derived from the installed one: same release with post / local / epoch / pre parts"""
+    try:
+        from packaging import version as _v
+        from ascmhl.__version__ import ascmhl_tool_version as cur
+
+        rel = ".".join(str(x) for x in _v.parse(cur).release)
+    except Exception:
+        rel = "0.1"
+    return ["v" + rel, rel + ".post1", "v" + rel + "-1", rel + "+local.build", "1!" + rel, rel + ".0", rel + ".0.0.1", rel + "rc1", rel + ".dev0", rel + ".post1.dev2"]
+
+
+TAGS = _relatives_of_installed() + ["v0.0.1", "v99.0.0", "v99.0.0-alpha.2", "v99.dev1", "garbage", "", None, 123, "99", "v1.2.3.4.5", "v99.0.0rc1", "continuous-integration-build-nightly", "a" * 64, "release_" * 8, "v" + "9" * 400, "1.0." + "0." * 60 + "1"]
 
 
 def budget(tier):
